@@ -556,8 +556,8 @@ impl TypedScenario for C06E2E {
         match (tier, self.faulty) {
             (Tier::Quick, false) => 4000,
             (Tier::Quick, true) => 2000,
-            (Tier::Thorough, false) => 400_000,
-            (Tier::Thorough, true) => 150_000,
+            (Tier::Thorough, false) => 2_000_000,
+            (Tier::Thorough, true) => 750_000,
         }
     }
     fn generate(&self, seed: u64, index: usize, _tier: Tier) -> Plan {
